@@ -123,14 +123,17 @@ let () =
           | _ -> failwith "left" in
         let rec take k l = if k = 0 then [] else (match l with x :: r -> x :: take (k - 1) r | [] -> []) in
         let rec drop k l = if k = 0 then l else (match l with _ :: r -> drop (k - 1) r | [] -> []) in
-        let x0 = match String.split_on_char ':' shape with
-          | ["left"] -> left execs
-          | ["iter"] -> PIter execs
-          | ["cat"; k] -> let k = int_of_string k in PCat (left (take k execs), left (drop k execs))
+        let set_in x = if pin = "N" then x else if pin.[0] = 'D' then PStdin (x, IData (dec_units (tail pin 1))) else PStdin (x, IRedir (redir pin)) in
+        let set_out x = if pout = "N" then x else PStdout (x, redir pout) in
+        let set_err x = if errfile = "1" then PStderrTo (x, n_of_int 800) else x in
+        let x3 = match String.split_on_char ':' shape with
+          | ["left"] -> set_err (set_out (set_in (left execs)))
+          | ["iter"] -> set_err (set_out (set_in (PIter execs)))
+          | ["cat"; k] -> let k = int_of_string k in set_err (set_out (set_in (PCat (left (take k execs), left (drop k execs)))))
+          (* configured before composing: input and stderr sink on the left operand, output on the right one *)
+          | ["cate"; k] -> let k = int_of_string k in PCat (set_err (set_in (left (take k execs))), set_out (left (drop k execs)))
+          | ["pushe"] -> Stdlib.List.fold_left (fun p e -> PPush (p, e)) (set_err (set_out (set_in (left (take 2 execs))))) (drop 2 execs)
           | _ -> failwith "shape" in
-        let x1 = if pin = "N" then x0 else if pin.[0] = 'D' then PStdin (x0, IData (dec_units (tail pin 1))) else PStdin (x0, IRedir (redir pin)) in
-        let x2 = if pout = "N" then x1 else PStdout (x1, redir pout) in
-        let x3 = if errfile = "1" then PStderrTo (x2, n_of_int 800) else x2 in
         let show_r = function BNone -> "N" | BPipe -> "P" | BMerge -> "M" | BFile i -> "F" ^ string_of_int (int_of_n i) in
         (match build x3 with
          | None -> print_endline "build-panic"
